@@ -236,7 +236,7 @@ def run(tier, seed):
                 shards.append(('laws', sname, ch, tuple(M.KEY_CONFIGS)))
     _G['law_states'] = law_states
     _G['nsym'] = 3 if tier == 'quick' else 4
-    focus = tuple('S45#focus:%s' % f for f in ('outputs', 'source', 'meta', 'attachments', 'cellmix0', 'cellmix2')) + ('S45#lineruns3',)
+    focus = tuple('S45#focus:%s' % f for f in ('outputs', 'outsim', 'source', 'meta', 'attachments', 'cellmix0', 'cellmix2')) + ('S45#lineruns3',)
     for sname in ((('S45', 'Sv2', 'Sjson') if tier == 'quick' else ('S45', 'S44', 'Sjson', 'Ssim', 'Sv2', 'Sv0')) + focus):
         _, d1 = M.depth1(sname)
         for i in range(len(d1)):
